@@ -178,6 +178,60 @@ def expression_cases() -> list[tuple[str, str]]:
     return out
 
 
+def library_target_cases() -> list[tuple[str, str]]:
+    """targets that are expressions over the library's own quantities (a measured rod, a step
+    length), including quantities that print alike; every ordered pair of conversions is run from
+    the initial state of the process, and both answers are compared with the reference"""
+    from .c03 import in_child
+    from sympy.physics import units as U
+    specs = [("rod-a", sp.Rational(12341, 10000), None), ("rod-b", sp.Rational(12349, 10000), None),
+        ("step-a", sp.Rational(4, 5), "step"), ("step-b", sp.Rational(8, 5), "step"),
+        ("bar-a", sp.Rational(5, 2), "L_0"), ("bar-b", sp.Rational(5, 2), "L_1")]
+    shapes = {
+        "q": (lambda q: q, lambda v: v, dims.L),
+        "2*q": (lambda q: 2 * q, lambda v: 2 * v, dims.L),
+        "q*minute/second": (lambda q: q * U.minute / U.second, lambda v: 60 * v, dims.L),
+        "q**2": (lambda q: q**2, lambda v: v**2, dims.L**2),
+        "newton*q": (lambda q: U.newton * q, lambda v: v, dims.M * dims.L**2 / dims.T**2),
+    }
+    out = []
+    for sname, (mk, fac, dv) in shapes.items():
+        value_unit = catalogue.si_unit_of(dv)
+        for (n1, v1, d1), (n2, v2, d2) in itertools.permutations(specs, 2):
+
+            def run(mk: Any = mk, v1: Any = v1, d1: Any = d1, v2: Any = v2, d2: Any = d2) -> list:
+                from symplyphysics import Quantity, convert_to
+                x = Quantity(100 * value_unit)
+                qs = [Quantity(v * U.meter, **({"display_symbol": d} if d else {})) for v, d in ((v1,
+                    d1), (v2, d2))]
+                res = []
+                for q in qs:
+                    try:
+                        res.append(str(sp.nsimplify(convert_to(x, mk(q)), rational=True)))
+                    except Exception as ex:
+                        res.append(f"error {type(ex).__name__}: {ex}")
+                return res
+
+            got = in_child(run, timeout=60)
+            key = f"libtarget:{sname}:{n1}>{n2}"
+            if isinstance(got, dict):
+                out.append((key, f"crashed: {got.get('error')}"))
+                continue
+            want = [sp.Integer(100) / fac(v1), sp.Integer(100) / fac(v2)]
+            bad = ""
+            for i, (g, w) in enumerate(zip(got, want)):
+                try:
+                    if not eq_exact(sp.sympify(g), w):
+                        bad = (f"conversion {i + 1} of the sequence (target {sname} over {(n1, n2)[i]}) "
+                            f"gives {g}, reference {w}")
+                        break
+                except Exception:
+                    bad = f"conversion {i + 1} of the sequence failed: {g}"
+                    break
+            out.append((key, bad))
+    return out
+
+
 def celsius_cases() -> list[tuple[str, str]]:
     from symplyphysics.core.symbols.celsius import (Celsius, to_kelvin, from_kelvin,
         to_kelvin_quantity, from_kelvin_quantity)
@@ -232,6 +286,8 @@ def _work(item: tuple) -> dict:
         cases = triple_cases(payload)
     elif kind == "expr":
         cases = expression_cases()
+    elif kind == "libtarget":
+        cases = library_target_cases()
     else:
         cases = celsius_cases()
     res: dict[str, Any] = {"n": len(cases), "keys": [k for k, _ in cases], "outcomes": {},
@@ -256,7 +312,7 @@ def main(run: Run) -> int:
             # quick, all members in thorough
             members = cls if run.thorough else cls[:12]
             items.append(("triples", members))
-    items += [("expr", None), ("celsius", None)]
+    items += [("expr", None), ("celsius", None), ("libtarget", None)]
     for r in pmap(_work, rotate(items, run.seed)):
         n = r.pop("n")
         run.evaluations += n
@@ -267,7 +323,9 @@ def main(run: Run) -> int:
         rule="all ordered pairs of the unit table x 5 magnitudes (conversion or refusal), SI "
         "conversion of every unit, inverse round trips, all ordered triples inside each dimension "
         "class, evaluate_expression over 7 expression shapes x ordered pairs of 12 quantities x "
-        "{exact, evalf}, Celsius/kelvin grid; distinct = distinct case keys",
+        "{exact, evalf}, Celsius/kelvin grid; targets that are expressions over library quantities (5 "
+        "shapes x all ordered pairs of 6 quantities, some printing alike), each pair of conversions "
+        "run from the initial state in a forked child; distinct = distinct case keys",
         exhaustive=True,
         assumptions=["SI factors in vp/values.py typed from the SI brochure (not read from sympy)",
             "exact comparison for rational factors, 1e-14 relative where pi or floats occur"])
